@@ -909,7 +909,19 @@ class KInterp:
         if isinstance(e, ast.Call):
             return self._call(e, st)
         if isinstance(e, (ast.Tuple, ast.List)):
-            return [self.eval(x, st) for x in e.elts]
+            out_ = []
+            for x in e.elts:
+                if isinstance(x, ast.Starred):
+                    # [*a, *b]: the spliced sequences must be known Python sequences
+                    v = self.eval(x.value, st)
+                    if isinstance(v, PyVal) and isinstance(v.v, (list, tuple)):
+                        v = self._lift_pyconst(list(v.v))
+                    if not isinstance(v, (list, tuple)):
+                        raise Unsupported("starred expression %s" % U(x))
+                    out_.extend(v)
+                else:
+                    out_.append(self.eval(x, st))
+            return out_
         if isinstance(e, ast.ListComp) and len(e.generators) == 1 and isinstance(e.generators[0].iter, ast.Call) \
                 and U(e.generators[0].iter.func) == "range" and isinstance(e.generators[0].iter.args[0], ast.Constant):
             return [self.eval(e.elt, st) for _ in range(e.generators[0].iter.args[0].value)]
@@ -1380,6 +1392,16 @@ class KInterp:
             v_ = self.eval(e.args[0], st)
             if isinstance(v_, BExpr):
                 return AnyOf(v_, "any")
+        if f in ("list", "tuple") and len(e.args) == 1 and not e.keywords and not isinstance(e.args[0], _Lit):
+            # list(seq) / tuple(seq) of a Python sequence known at analysis time is that sequence
+            try:
+                v_ = self.eval(e.args[0], st)
+            except Unsupported:
+                v_ = None
+            if isinstance(v_, PyVal) and isinstance(v_.v, (list, tuple)):
+                return list(self._lift_pyconst(list(v_.v)))
+            if isinstance(v_, (list, tuple)):
+                return list(v_)
         if isinstance(e.func, ast.Attribute) and not e.args and not e.keywords:
             try:
                 recv = self.eval(e.func.value, st) if isinstance(e.func.value, (ast.Name, ast.Call)) and \
@@ -1445,7 +1467,7 @@ class KInterp:
             for g_, p_ in v.cases:
                 out = out | (BExpr([g_]) & b_nan(p_))
             return ~out if f.endswith("notnull") else out
-        if isnp or f in ("abs", "max", "min", "len", "range", "bool", "int", "float", "where"):
+        if isnp or f in ("abs", "max", "min", "len", "range", "bool", "int", "float", "where", "flatnonzero", "nonzero"):
             if short in ("abs", "absolute", "fabs"):
                 return num(0).map1(lambda p: apply_fn("abs", [p]))
             if short in ("maximum", "max", "minimum", "min") and len(args) == 2:
@@ -1501,6 +1523,14 @@ class KInterp:
                 return self._compare(ast.Gt(), ev(0), ev(1), e, st)
             if short == "where" and len(args) == 3:
                 return self._select(self._as_bool(ev(0)), ev(1), ev(2))
+            if short in ("flatnonzero", "where", "nonzero") and len(args) == 1 and not kw:
+                # the positions of the True entries select the same rows as the mask itself (x[pos] is x[mask]); they are only
+                # ever used as an index here -- arithmetic on a mask value is rejected elsewhere
+                v = ev(0)
+                if isinstance(v, GExpr) and self._tbl_bool(v):
+                    v = self._as_bool(v)
+                if isinstance(v, BExpr):
+                    return v if short == "flatnonzero" else [v]
             if short in ("any", "all"):
                 return AnyOf(self._as_bool(ev(0)), short)
             if short == "sum":
